@@ -22,6 +22,12 @@ CHECKS = {
                      "either raises IndexError / the dimensionality error or returns exactly the real item Python indexing denotes; "
                      "provenance of every returned element must be a real stored voxel.",
                 design='DESIGN.md 7/C14'),
+    'C07': dict(text="The real reader runs on a symbolic conforming file behind a logging file/blob stub; the (offset, length) of every range read "
+                     "is a z3 term. For all in-range arguments and all dimensions within the block bound z3 shows: every fetched byte lies in a "
+                     "data-section block whose voxel box intersects the request, logged ranges are pairwise disjoint, open touches only header blocks, "
+                     "preload fetches the data section exactly once, gen_trace_header costs one 4-byte read per stored array at the spec offset "
+                     "(cold, after a bulk tracefield read and after another header). Bounded model checking.",
+                design='DESIGN.md 7/C07'),
 }
 
 NOT_YET = "check not built yet in this session (work in progress; see DESIGN.md section 11 build order)"
